@@ -298,6 +298,7 @@ type c15Seq struct {
 	history  []map[string]any
 	sched    bool
 	tr       *http.Transport
+	client   *http.Client
 }
 
 func c15Call(h http.HandlerFunc, method, target, body string) (code int, resp []byte, panicked any) {
@@ -986,7 +987,7 @@ func c15NewSeq(env *c15Env, n int) (q *c15Seq, err error) {
 			// A file left by an earlier run of the program.
 			probe := fmt.Sprintf("v0.l%d.c15probe.test", i)
 			t := c15GenText(rng, probe, "plain", 0)
-			nf, _ := c15Normalise(t.Bytes, false, false)
+			nf, _ := c15Normalise(t.Bytes, false, false, false)
 			p := filepath.Join(q.dataDir, filterDir, strconv.Itoa(l.ID)+".txt")
 			if err = os.WriteFile(p, nf, 0o644); err != nil {
 				return nil, err
@@ -1019,6 +1020,7 @@ func c15NewSeq(env *c15Env, n int) (q *c15Seq, err error) {
 		q.tr = &http.Transport{DisableKeepAlives: rng.Intn(3) == 0, MaxIdleConnsPerHost: 4}
 		client = &http.Client{Timeout: 60 * time.Second, Transport: q.tr}
 	}
+	q.client = client
 	conf := &Config{
 		DataDir:          q.dataDir,
 		FilteringEnabled: true,
@@ -1116,8 +1118,10 @@ func (q *c15Seq) checkRestart() {
 			block = append(block, fy)
 		}
 	}
-	d2, err := New(&Config{DataDir: q.dataDir, Filters: block, WhitelistFilters: allow,
-		HTTPClient: &http.Client{}, ConfigModified: func() {}}, nil)
+	h2 := map[string]http.HandlerFunc{}
+	d2, err := New(&Config{DataDir: q.dataDir, FilteringEnabled: true, Filters: block, WhitelistFilters: allow,
+		HTTPClient: q.client, ConfigModified: func() {}, SafeFSPatterns: []string{filepath.Join(q.srcDir, "*")},
+		HTTPRegister: func(method, u string, h http.HandlerFunc) { h2[method+" "+u] = h }}, nil)
 	if err != nil {
 		rep.Violate("restart:data-dir-rejected", "filtering.New fails on the data directory left by the refreshes: "+err.Error(),
 			map[string]any{"sequence": q.describe(), "history": q.history})
@@ -1145,6 +1149,104 @@ func (q *c15Seq) checkRestart() {
 					got.RulesCount, got.checksum, s.Count, s.Sum),
 				map[string]any{"sequence": q.describe(), "history": q.history, "list": l.Idx, "stored": s.show()})
 		}
+	}
+
+	// The restarted instance refreshes every list; the sources serve content
+	// whose normal form is what is stored (preferably the very text that was
+	// stored from), or fail.  No file may be rewritten.
+	d2.EnableFilters(false)
+	d2.RegisterFilteringHandlers()
+	refresh := h2["POST /control/filtering/refresh"]
+	if refresh == nil {
+		return
+	}
+	served := map[int]*c15Beh{}
+	hasAllow := false
+	for _, l := range q.lists {
+		hasAllow = hasAllow || l.Allow
+		s := last.Lists[l.ID]
+		b := &c15Beh{Kind: "status-404", Status: 404, Text: &c15Text{Bytes: []byte("||x.example.org^\n"), Class: "plain"}, Level: c15MustFail}
+		if l.Src == "file" {
+			b.Kind = "file-vanished"
+		}
+		var t *c15Text
+		switch {
+		case !s.Exists:
+		case l.LastOK != nil:
+			c := *l.LastOK
+			c.Class = "identical"
+			t = &c
+		default:
+			t = c15Rerender(q.rng, s.Bytes, l.GoodProbe)
+			if forms, _ := c15Forms(t.Bytes); len(forms) != 1 || !bytes.Equal(forms[0], s.Bytes) || len(c15Exotic(t.Bytes)) > 0 {
+				t = nil
+			}
+		}
+		if t != nil {
+			b = &c15Beh{Kind: "ok-length", Text: t, Level: c15MustSucceed}
+			if l.Src == "file" {
+				b.Kind = "file-write"
+			}
+		}
+		served[l.Idx] = b
+		if err = q.apply(l, b); err != nil {
+			return
+		}
+	}
+	info := map[string]any{}
+	for _, white := range []bool{false, true} {
+		if white && !hasAllow {
+			continue
+		}
+		code, body, pn := c15Call(refresh, http.MethodPost, "/control/filtering/refresh", fmt.Sprintf(`{"whitelist":%t}`, white))
+		info[fmt.Sprintf("whitelist=%t", white)] = fmt.Sprintf("%d %s panic=%v", code, strings.TrimSpace(string(body)), pn)
+	}
+	for _, l := range q.lists {
+		s, b := last.Lists[l.ID], served[l.Idx]
+		p := filepath.Join(q.dataDir, filterDir, strconv.Itoa(l.ID)+".txt")
+		now := &c15Snap{}
+		if fi, serr := os.Stat(p); serr == nil {
+			now.Exists = true
+			if sys, ok := fi.Sys().(*syscall.Stat_t); ok {
+				now.Ino = sys.Ino
+			}
+			now.Bytes, _ = os.ReadFile(p)
+		}
+		var cnt int
+		var sum uint32
+		for _, arr := range [][]FilterYAML{d2.conf.Filters, d2.conf.WhitelistFilters} {
+			for i := range arr {
+				if int(arr[i].ID) == l.ID {
+					cnt, sum = arr[i].RulesCount, arr[i].checksum
+				}
+			}
+		}
+		now.Count, now.Sum = cnt, sum
+		diff := ""
+		switch {
+		case s.Exists != now.Exists:
+			diff = "file-created-or-removed"
+		case !bytes.Equal(s.Bytes, now.Bytes):
+			diff = "file-bytes-changed"
+		case s.Ino != now.Ino:
+			diff = "file-rewritten-new-inode"
+		case s.Count != now.Count:
+			diff = "rules-count-changed"
+		}
+		if b.Level == c15MustSucceed {
+			rep.Event("restart_refreshes_of_unchanged_content")
+		}
+		if diff == "" {
+			continue
+		}
+		key := "restart:failed-refresh:" + diff
+		what := "after a restart, a failed refresh changed the list: " + diff
+		if b.Level == c15MustSucceed {
+			key = "restart:unchanged-content:" + diff
+			what = "after a restart, a refresh that served content with the stored normal form changed the list: " + diff
+		}
+		rep.Violate(key, what, map[string]any{"sequence": q.describe(), "history": q.history, "list": l.Idx, "list_id": l.ID,
+			"stored_before_restart": s.show(), "after_refresh_by_second_instance": now.show(), "served": b.show(), "refresh": info})
 	}
 }
 
